@@ -90,12 +90,12 @@ func run(c *vf.Ctx) {
 		"B: all (kind,index,parent) derived IDs incl. second-level derivations inserted in one hash set, must be pairwise distinct. "+
 		"C: v2 sighashes == reference preimage model with pairwise distinct purposes; v1 whole/partial sighash of one transaction pairwise distinct over eras at robust heights of every network; every ordered era pair x {siacoin spend whole-sig, siafund spend whole-sig, siacoin spend partial-sig}: signed in era A, submitted unchanged in era B => ValidateBlock rejects, re-signed => accepts, same-era different height => accepts; object sighashes under every field mutation. "+
 		"D: every block of chain-engine histories (full honest menu per block, plus empty blocks and v2 blocks carrying only v1 transactions) x every content mutation with header fields kept => rejected or ID differs (no-ops by encoding excluded); v2: commitment differs for every content mutation, every encoded parent-state field (walker + every byte of the state encoding) and the miner address. "+
-		"E: signed v2 transactions x every effect-field mutation without re-signing => ValidateV2Transaction rejects. A case is non-trivial when the mutation changes the full encoding; distinct = (family, template/network, field path, operation)")
+		"E: signed v2 transactions x every effect-field mutation without re-signing => ValidateV2Transaction rejects. F: a storage-proof resolution whose ID preimage is re-read byte for byte as a renewal resolution: the two transactions must have different IDs. A case is non-trivial when the mutation changes the full encoding; distinct = (family, template/network, field path, operation)")
 	times := map[string]float64{}
 	for _, f := range []struct {
 		n  string
 		fn func()
-	}{{"A", r.familyA}, {"B", r.familyB}, {"C", r.familyC}, {"D", r.familyD}, {"E", r.familyE}} {
+	}{{"A", r.familyA}, {"B", r.familyB}, {"C", r.familyC}, {"D", r.familyD}, {"E", r.familyE}, {"F", r.familyF}} {
 		t0 := time.Now()
 		f.fn()
 		times[f.n] = time.Since(t0).Seconds()
@@ -105,7 +105,7 @@ func run(c *vf.Ctx) {
 	c.RequireFeature("evaluations", "A:effect_changed", "A:witness_unchanged", "A:unspec_observed", "A:derived_ids_checked", "B:ids_compared",
 		"C:purpose_model_match", "C:era_pairs_distinct", "C:e2e_cross_era_rejected", "C:e2e_resigned_accepted", "C:e2e_same_era_accepted", "C:object_sighash_changed", "C:object_sighash_own_sig_unchanged",
 		"D:v1_id_changed", "D:v2_rejected", "D:commitment_changed", "D:state_field_commitment_changed", "D:state_byteflips", "D:miner_addr_commitment_changed", "D:original_accepted", "D:blocks_v1", "D:blocks_v2_empty", "D:blocks_v2_with_v1_transactions_only", "D:blocks_v2_with_v1_and_v2_transactions",
-		"E:control_accepted", "E:mutant_rejected")
+		"E:control_accepted", "E:mutant_rejected", "F:kind_pairs_compared")
 	c.Assume("BLAKE2b, SHA-256 (token derivation) and Ed25519 are trusted; 'changes' / 'distinct' means different 32-byte digests (a collision would be reported as a violation)")
 	c.Assume("the binary encoders (EncodeTo) are used to decide whether a block / state mutation is a no-op; their faithfulness is property C11's subject")
 	c.Assume("block / transaction mutants that cannot be encoded at all (a zero-valued v2 input with a nil spend policy makes EncodeTo panic) are skipped and counted; panics of ValidateBlock / ValidateV2Transaction on mutants are counted as rejections (they are property C10's subject)")
@@ -152,6 +152,8 @@ func replay(c *vf.Ctx, raw json.RawMessage) {
 		r.familyD()
 	case "E":
 		r.familyE()
+	case "F":
+		r.familyF()
 	default:
 		c.HarnessError("unknown family %q", d.Family)
 	}
